@@ -69,7 +69,24 @@ def cases(tier, seed):
             info.pop("ascender")
         if info.get("descender", -1) > 0:
             info.pop("descender")
-        out.append({"cid": f"c16-{seed}-{k}", "lib": rng.choice(["ufoLib2", "defcon"]), "flavor": rng.choice(["tt", "cff"]), "info": info})
+        case = {"cid": f"c16-{seed}-{k}", "lib": rng.choice(["ufoLib2", "defcon"]), "flavor": rng.choice(["tt", "cff"]), "info": info}
+        if rng.random() < 0.25:
+            # variable-font info overrides (designspace <variable-font> lib key public.fontInfo): explicit values -- zero and
+            # empty ones included -- must win over what the default master contributes
+            over = {}
+            for a, vals in NUM_ATTRS.items():
+                if a != "unitsPerEm" and rng.random() < 0.35:
+                    over[a] = rng.choice(vals + [0])
+            for a in ("openTypeHheaAscender", "openTypeOS2WinAscent", "openTypeOS2WinDescent"):
+                if a in over and over[a] < 0:
+                    over.pop(a)
+            if over.get("ascender", 1) < 0:
+                over.pop("ascender")
+            if over.get("descender", -1) > 0:
+                over.pop("descender")
+            case["vfInfo"] = over
+            case["flavor"] = rng.choice(["tt", "cff2"])
+        out.append(case)
     return out
 
 
@@ -81,6 +98,8 @@ def execute(case):
     import ufo2ft
 
     glyphs = {"a": {"cs": [layout_gen.box()], "comps": [], "anchors": [], "w": 500 * 1024, "h": 0, "u": [0x61]}}
+    if "vfInfo" in case:
+        return [_execute_vf(case, glyphs)]
     font = absfont.build_font({"glyphs": glyphs, "info": dict(case["info"])}, case["lib"])
     info = case["info"]
     rec = {"tid": case["cid"], "present": sorted(info), "flavor": case["flavor"],
@@ -109,6 +128,51 @@ def execute(case):
         ret["cffName"] = _cps(cff.fontNames[0])
     rec["ret"] = ret
     return [rec]
+
+
+def _execute_vf(case, glyphs):
+    import copy
+
+    import ufo2ft
+
+    from .. import dsbuild
+
+    base_info = dict(case["info"])
+    base_info.setdefault("familyName", "VF Test")
+    base_info.pop("postscriptFontName", None)
+    merged = dict(base_info)
+    merged.update(case["vfInfo"])
+    g2 = copy.deepcopy(glyphs)
+    g2["a"]["w"] = 600 * 1024
+    masters = [{"loc": {"Weight": 400}, "ufo": {"glyphs": glyphs, "info": dict(base_info, styleName=base_info.get("styleName", "Regular"))}, "name": "m0"},
+               {"loc": {"Weight": 700}, "ufo": {"glyphs": g2, "info": dict(base_info, styleName=base_info.get("styleName", "Regular"))}, "name": "m1"}]
+    fam = {"axes": [{"name": "Weight", "tag": "wght", "min": 400, "default": 400, "max": 700}], "masters": masters,
+           "variableFonts": [{"name": "TestVF", "lib": {"public.fontInfo": dict(case["vfInfo"])}}]}
+    ds = dsbuild.build_designspace(fam, case["lib"])
+    info = merged
+    rec = {"tid": case["cid"], "present": sorted(a for a in info if a in NUM_ATTRS or a in STR_ATTRS), "flavor": case["flavor"],
+           "num": {a: absfont.to_scaled(v, 4) for a, v in info.items() if a in NUM_ATTRS},
+           "str": {a: _cps(v) for a, v in info.items() if a in STR_ATTRS}, "_vf": True}
+    try:
+        fn = ufo2ft.compileVariableTTF if case["flavor"] == "tt" else ufo2ft.compileVariableCFF2
+        otf = fn(ds, useProductionNames=False)
+        data, f2 = project.save_reload(otf)
+    except Exception as e:  # noqa
+        rec["ret"] = {"err": type(e).__name__}
+        rec["_msg"] = str(e)[:200]
+        return rec
+    hh, os2, hd, post = f2["hhea"], f2["OS/2"], f2["head"], f2["post"]
+    num = {"unitsPerEm": hd.unitsPerEm, "hheaAscent": hh.ascent, "hheaDescent": hh.descent, "hheaLineGap": hh.lineGap,
+           "caretSlopeRise": hh.caretSlopeRise, "caretSlopeRun": hh.caretSlopeRun, "caretOffset": hh.caretOffset,
+           "sTypoAscender": os2.sTypoAscender, "sTypoDescender": os2.sTypoDescender, "sTypoLineGap": os2.sTypoLineGap,
+           "usWinAscent": os2.usWinAscent, "usWinDescent": os2.usWinDescent, "sxHeight": os2.sxHeight, "sCapHeight": os2.sCapHeight,
+           "underlineThickness": post.underlineThickness, "underlinePosition": post.underlinePosition}
+    names = {}
+    for nr in f2["name"].names:
+        if nr.platformID == 3 and nr.langID == 0x409 and nr.nameID < 256:
+            names[str(nr.nameID)] = _cps(nr.toUnicode())
+    rec["ret"] = {"num": num, "names": names, "reloaded": True}
+    return rec
 
 
 def nontrivial(rec):
